@@ -130,6 +130,37 @@ def run(out: Outcome) -> None:
             r = check_trace(out, cls, p, ops)
             if r:
                 runners.append(r)
+        # two-sided Hoeffding/McDiarmid tests: three-level streams with a wide gap between the levels (one side can be at drift level while
+        # the other is only at warning level: the flags must stay exclusive)
+        if cls in dets.UNIT_INTERVAL:
+            for _ in range(40 if thorough else 14):
+                ad = rng.choice([0.001, 0.01, 0.05])
+                p = {"alpha_d": ad, "alpha_w": rng.choice([1.0, 0.9, 0.5]), "two_sided_test": True, "min_num_instances": rng.choice([1, 5, 30, 40])}
+                if cls == "HDDMW":
+                    p["lambda_"] = rng.choice([0.05, 0.2])
+                a, b, c = rng.randint(3, 40), rng.randint(3, 60), rng.randint(5, 80)
+                hi, lo, mid = rng.choice([0.6, 0.8, 1.0]), rng.choice([0.0, 0.1]), rng.choice([0.5, 0.7, 1.0])
+                vals = [1.0 if rng.random() < hi else 0.0 for _ in range(a)] + [1.0 if rng.random() < lo else 0.0 for _ in range(b)] + [1.0 if rng.random() < mid else 0.0 for _ in range(c)]
+                r = check_trace(out, cls, p, [("u", v) for v in vals])
+                if r:
+                    runners.append(r)
+            # deterministic three-block grid (burst, long quiet period, burst again) and its mirror image
+            for a, b, c in ([(a, b, 12) for a in (2, 4, 7) for b in (15, 30, 45, 80)] if not thorough else [(a, b, 20) for a in (1, 2, 3, 4, 5, 7, 10) for b in (10, 15, 20, 30, 45, 60, 80, 120)]):
+                for (ad, aw, mn) in ((0.001, 0.005, 30), (0.001, 0.005, 40), (0.01, 0.5, 5), (0.05, 1.0, 1)):
+                    p = {"alpha_d": ad, "alpha_w": aw, "two_sided_test": True, "min_num_instances": mn}
+                    for first in (1.0, 0.0):
+                        vals = [first] * a + [1.0 - first] * b + [first] * c
+                        r = check_trace(out, cls, p, [("u", v) for v in vals])
+                        if r:
+                            runners.append(r)
+        if cls == "EDDM":
+            # sparse errors, then dense errors: the ratio test wants to fire as soon as its gate opens - it must wait for min_num_misclassified_instances errors
+            for mm in ((35, 45, 60, 80) if thorough else (35, 60)):
+                for gap in (3, 6):
+                    vals = ([0] * gap + [1]) * rng.randint(22, 28) + [1] * (mm + 20)
+                    r = check_trace(out, cls, {"min_num_misclassified_instances": mm, "alpha": 0.95, "beta": 0.9}, [("u", v) for v in vals])
+                    if r:
+                        runners.append(r)
         # warm-up boundary traces: streams that alarm as early as possible
         for mn in ([1, 2, 3, 5, 30] if thorough else [1, 2, 5]):
             p = gen.rand_params(rng, cls)
